@@ -726,6 +726,7 @@ def run(pid, tier, known, log, write_replay_file):
             continue
         t0 = time.time()
         try:
+            sym.CURRENT_KERNEL = kn
             rec = fn(E, tier)
             if pid in PANIC_ONLY:
                 rec.obligations = [o for o in rec.obligations if o["obligation"].startswith("no panic")]
@@ -811,6 +812,7 @@ def replay(doc, log):
         print("[replay] " + m, flush=True)
     E = get_engine(lg)
     fn = getattr(kernels, doc["kernel"])
+    sym.CURRENT_KERNEL = doc["kernel"]
     rec = fn(E, "quick").to_dict()
     for ob in rec["obligations"]:
         if ob["obligation"] == doc["label"] and ob["verdict"] == "violated":
